@@ -314,8 +314,13 @@ class FastNetNeuronCommunicator(FastSerialCommunicator):
             msg: switch number
             remote_processor: Processor which sent the message.
         """
+        try:
+            num = int(msg, 16)
+        except ValueError:
+            self.log.warning("Received malformed switch open message: %s", msg)
+            return
         self.machine.switch_controller.process_switch_by_num(state=0,
-                                                             num=int(msg, 16),
+                                                             num=num,
                                                              platform=self.platform,
                                                              logical=True)
 
@@ -327,8 +332,13 @@ class FastNetNeuronCommunicator(FastSerialCommunicator):
             msg: switch number
             remote_processor: Processor which sent the message.
         """
+        try:
+            num = int(msg, 16)
+        except ValueError:
+            self.log.warning("Received malformed switch closed message: %s", msg)
+            return
         self.machine.switch_controller.process_switch_by_num(state=1,
-                                                             num=int(msg, 16),
+                                                             num=num,
                                                              platform=self.platform,
                                                              logical=True)
 
